@@ -1,9 +1,11 @@
-(* C16 -- dataclass value semantics: equality, order, hash, (frozen, copy: checked on pane).
+(* C16 -- dataclass value semantics: equality, order, hash; frozen, copy, deepcopy, replace (second part of this file).
    The hash table is reflected from the live classes._hash_action and dataclasses._hash_action;
    [stdlib_rule] is written from the dataclasses documentation.  The laws are proved for field
    values in any domain where == is an equivalence and > a compatible total order. *)
 From Coq Require Import ZArith List Bool Lia.
 Require Import Gen.GenHash Model.ClassSem Lemmas.SemLemmas.
+Require Import Base.Outcome Model.Values Model.Vocab Model.Types Model.Conv Model.Instance Lemmas.RoundTrip Lemmas.InstLemmas.
+From Coq Require Import String.
 Import ListNotations.
 
 Theorem C16_hash_table_is_the_stdlib_table : forall u e f h,
@@ -68,4 +70,91 @@ Proof.
   - apply Z.eqb_sym.
   - apply Z.eqb_eq in H, H0. apply Z.eqb_eq. congruence.
   - apply Z.eqb_neq in H. rewrite !Z.gtb_ltb. destruct (Z.ltb_spec y x), (Z.ltb_spec x y); simpl; auto; lia.
+Qed.
+
+(* ---------------------------------------------------------------------------------------------
+   Frozen, copy, deepcopy, replace: the instance machine of Model/Instance.v (tied to pane by
+   corr_inst: generated classes and operation sequences, compared step by step).
+   State = every field's value + the record of explicitly set fields. *)
+
+Theorem C16_frozen_instances_reject_assignment : forall c s n v,
+  ic_frozen c = true -> step c s (OpAssign n v) = (s, OutFrozen).
+Proof. exact frozen_rejects_assignment. Qed.
+
+Theorem C16_deletion_is_rejected : forall c s n, step c s (OpDelete n) = (s, OutAttrError).
+Proof. exact delete_rejected. Qed.
+
+Theorem C16_copies_have_the_same_values_and_record : forall c s,
+  step c s OpCopy = (s, OutInst s) /\ step c s OpDeepCopy = (s, OutInst s).
+Proof. exact copies_are_the_same. Qed.
+
+(* replace: a changed field holds the RE-VALIDATED value, every other field keeps its value,
+   the record is the old one plus the changed names *)
+Theorem C16_replace_field_by_field : forall c s ch,
+  wf_cls c -> Inv c s -> changes_ok c ch = true ->
+  (forall f v, In f (ic_fields c) -> field_get (if_name f) ch = Some v -> exists x, conv_arg (if_ty f) v = Ok x) ->
+  exists s', replace c s ch = OutInst s' /\
+    map fst (st_vals s') = names c /\
+    (forall f, In f (ic_fields c) -> exists x, field_get (if_name f) (st_vals s') = Some x /\
+        match field_get (if_name f) ch with
+        | Some v => conv_arg (if_ty f) v = Ok x
+        | None => field_get (if_name f) (st_vals s) = Some x
+        end) /\
+    (forall n, smem n (st_set s') = smem n (st_set s) || has_value n ch).
+Proof. exact replace_spec. Qed.
+Print Assumptions C16_replace_field_by_field.
+
+Theorem C16_replace_rejects_a_value_outside_the_field_type : forall c s ch f v,
+  wf_cls c -> Inv c s -> changes_ok c ch = true ->
+  In f (ic_fields c) -> field_get (if_name f) ch = Some v -> conv_arg (if_ty f) v = Reject ->
+  (forall g w e, In g (ic_fields c) -> field_get (if_name g) ch = Some w -> conv_arg (if_ty g) w <> Escape e) ->
+  replace c s ch = OutConvertError.
+Proof. exact replace_revalidates. Qed.
+
+Theorem C16_replace_rejects_unknown_names : forall c s ch, changes_ok c ch = false -> replace c s ch = OutTypeError.
+Proof. exact replace_unknown_name. Qed.
+
+(* the invariant holds for every instance a constructor returns and is kept by every operation *)
+Theorem C16_invariant_of_reachable_instances : forall c kw s0 ops,
+  wf_cls c -> Forall (fun f => rt_ty (if_ty f)) (ic_fields c) ->
+  construct_kw c kw = OutInst s0 -> Forall (op_typed c) ops -> Inv c (run c s0 ops).
+Proof.
+  intros c kw s0 ops W R C F. apply run_inv; auto using rt_fields_idem. eapply constructed_inv; eauto using rt_fields_idem.
+Qed.
+Print Assumptions C16_invariant_of_reachable_instances.
+
+(* copy, deepcopy and replace() of EVERY reachable instance give the same values with the same record *)
+Theorem C16_copy_deepcopy_replace_of_every_reachable_instance : forall c kw s0 ops,
+  wf_cls c -> Forall (fun f => rt_ty (if_ty f)) (ic_fields c) ->
+  construct_kw c kw = OutInst s0 -> Forall (op_typed c) ops ->
+  let s := run c s0 ops in
+  step c s OpCopy = (s, OutInst s) /\ step c s OpDeepCopy = (s, OutInst s) /\
+  exists s', step c s (OpReplace []) = (s', OutInst s') /\ st_vals s' = st_vals s /\ same_record s' s.
+Proof. intros c kw s0 ops W R. apply reachable_copy_replace; auto using rt_fields_idem. Qed.
+Print Assumptions C16_copy_deepcopy_replace_of_every_reachable_instance.
+
+(* the hypotheses are satisfiable: a class with a required field, a defaulted list field and an
+   init=False field; the instance is constructed, its init=False field assigned, a field replaced
+   (a tuple offered for the list field comes back as the list), and copied *)
+Definition ex_cls : icls := mkICls false
+  [mkIFld "x" (TScalar SInt) true None; mkIFld "y" (TSeq SeqList (TScalar SInt)) true (Some (VList []));
+   mkIFld "z" (TScalar SStr) false (Some (VStr "d"))].
+Definition ex_ops : list iop := [OpAssign "z" (VStr "q"); OpReplace [("y", VTuple [VInt 1; VInt 2])]; OpCopy].
+
+Example C16_instance_hypotheses_satisfiable :
+  wf_cls ex_cls /\ Forall (fun f => rt_ty (if_ty f)) (ic_fields ex_cls) /\
+  construct_kw ex_cls [("x", VInt 1)] = OutInst (mkIState [("x", VInt 1); ("y", VList []); ("z", VStr "d")] ["x"]) /\
+  Forall (op_typed ex_cls) ex_ops /\
+  run ex_cls (mkIState [("x", VInt 1); ("y", VList []); ("z", VStr "d")] ["x"]) ex_ops
+    = mkIState [("x", VInt 1); ("y", VList [VInt 1; VInt 2]); ("z", VStr "q")] ["x"; "y"; "z"].
+Proof.
+  split; [|split; [|split; [|split]]].
+  - split.
+    + repeat constructor; simpl; intuition discriminate.
+    + intros f [<-|[<-|[<-|[]]]]; simpl; intros; discriminate.
+  - repeat constructor.
+  - vm_compute. reflexivity.
+  - repeat constructor; simpl.
+    intros f H. vm_compute in H. inversion H; subst. discriminate.
+  - vm_compute. reflexivity.
 Qed.
